@@ -169,11 +169,9 @@ def adj (X : SE2 K) : M3 K :=
   ⟨X.re, -X.im, X.y,
    X.im, X.re, -X.x,
    nat 0, nat 0, nat 1⟩
-/-- `inverse`: `LieGroup(-x*re - y*im, x*im - y*re, -angle())` (three-argument constructor:
-    goes through `atan2` and back through `cos/sin`). -/
+/-- `inverse`: `LieGroup(-x*re - y*im, x*im - y*re, real(), -imag())` (conjugate rotation). -/
 def inverseRaw (X : SE2 K) : SE2 K :=
-  let θ := -X.angle
-  ⟨-X.x * X.re - X.y * X.im, X.x * X.im - X.y * X.re, Scalar.cos θ, Scalar.sin θ⟩
+  ⟨-X.x * X.re - X.y * X.im, X.x * X.im - X.y * X.re, X.re, -X.im⟩
 def inverse (dbg : Bool) (X : SE2 K) : Except Err (SE2 K) :=
   let r := inverseRaw X
   make dbg r.x r.y r.re r.im
